@@ -73,6 +73,8 @@ def _task(kind, prop, tier, arg=None):
         from .. import zsweep
         cls, mode = arg
         try:
+            if cls == 'compress':
+                return zsweep.verify_contract(zsweep.compress_contract(mode), (prop,))
             return zsweep.verify_contract(zsweep.orthonormalize_contract(cls, mode), (prop,))
         except Exception as e:
             return [Verdict(f'sweep[{mode}]', 'Z', 'undecided', f'executor error: {type(e).__name__}: {e}', 0, f'{cls}.orthonormalize', 'ensures', 'z3')]
@@ -80,7 +82,8 @@ def _task(kind, prop, tier, arg=None):
 
 
 QR = {'C11': ['C11'], 'C01': ['C11'], 'C12': ['C12'], 'C13': ['C12']}
-SWEEPS = {'C01': [('MPS', 'left'), ('MPS', 'right'), ('MPO', 'left'), ('MPO', 'right')], 'C02': [('MPS', 'left'), ('MPS', 'right')]}
+SWEEPS = {'C01': [('MPS', 'left'), ('MPS', 'right'), ('MPO', 'left'), ('MPO', 'right')], 'C02': [('MPS', 'left'), ('MPS', 'right'), ('compress', 'left'), ('compress', 'right')],
+          'C13': [('compress', 'left'), ('compress', 'right')]}
 
 
 def deductive_all(prop, tier='quick'):
